@@ -130,6 +130,7 @@ type Run struct {
 
 	violation *Violation
 
+	symCells      map[*value]*symCell
 	scaledChecked map[*Term]bool
 	scaledQueries int
 	scaledHits    int
